@@ -247,3 +247,14 @@ def cmds(job, rng, home):
                  {"plan": plan})
 
 SCENARIOS["cmds"] = cmds
+
+def xtrig(job, rng, home):
+    """Workflows with xtriggers (one shared signature, one per-cycle signature); results come from the schedule."""
+    w = gen.generate(rng, features=dict(job.get("features") or {}, xtriggers=True))
+    outcome = gen.make_outcome(w, rng, "complete")
+    pol = dict(p_xt_ok=rng.choice([0.3, 0.5, 0.8]), max_iters=600)
+    pol.update(job.get("policy") or {})
+    res = driver.execute(w.flow_text(), outcome, rng.randrange(1 << 30), home, policy=pol)
+    return _pack(job["seed"], w, res, {"allcomplete": False, "stopreq": True})
+
+SCENARIOS["xtrig"] = xtrig
